@@ -213,6 +213,12 @@ def variants(fp, cls):
             def neg_route(kw):
                 kw[g].add_edge("s", "neg", flow=-3, length=1); kw[g].add_edge("neg", "t", flow=-3, length=1)
             add("negativeWeight", "extra route s->neg->t with flow -3 (conservation holds)", neg_route, {"negroute"})
+            # ... and a negative value that an int() conversion would truncate to 0
+            def neg_small(kw):
+                kw[g].add_edge("s", "neg", flow=-0.5, length=1); kw[g].add_edge("neg", "t", flow=-0.5, length=1)
+                kw["weight_type"] = int
+            if "weight_type" in sig:
+                add("negativeWeight", "extra route s->neg->t with flow -0.5, weight_type=int", neg_small, {"negroute", "wtype"})
         add("missingWeight", "flow(a,b) missing", lambda kw: kw[g]["a"]["b"].pop("flow"), {"w:ab"})
         add("badWeightType", "weight_type=str", lambda kw: kw.update(weight_type=str), {"wtype"})
     if cls in FLOW_DECOMP:
